@@ -8,5 +8,6 @@ CONSTANTS
   Rngs = {"rA", "rB"}
   NiceMs = {"10", "2"}
 INVARIANT C15_EndpointsMapAfterHistory
+INVARIANT C15_InvertAfterHistory
 INVARIANT SameShape
 CHECK_DEADLOCK TRUE
